@@ -893,4 +893,7 @@ def run(ctx):
                        'reconstructed text (skeleton + values) is compared with the published line formats (LAMMPS read_data / dump, VASP POSCAR) for every '
                        'periodicity setting, orthogonal/partly/fully tilted cells, with and without image flags, velocities, potentials; the per-style column '
                        'tables are compared with the LAMMPS reference and typed by physical dimension. Not decided: decimal rendering of the numbers.')
-    ctx.run_rules([prop_tables, data_file, dump_file, tables, poscar])
+    # the data-file writer wraps the system before writing (image flags, bounds extended over non-periodic faces): "every atom lies within the written bounds" rests on
+    # System.wrap, decided by the rule of the property that owns it
+    from .c05 import wrap as system_wrap
+    ctx.run_rules([prop_tables, data_file, dump_file, tables, poscar, system_wrap])
